@@ -158,6 +158,7 @@ type Sched struct {
 	CommitBusy      int
 	CommitBusyFired int
 	BusyAt          map[int]bool // (concurrent programs) ordinals of the commit attempts that fail with BUSY
+	backoffGID      uint64       // goroutine that received such a BUSY and has not made its next commit attempt yet
 	commitAttempts  int
 	onPoint         func(name, detail string) // called when a task passes a point hook (after its release)
 }
@@ -338,7 +339,19 @@ func (s *Sched) faultHook(name string) error {
 	}
 	// concurrent programs: the n-th commit attempt of the whole run fails (whoever makes it)
 	s.commitAttempts++
+	gid := curGID()
+	if s.backoffGID == gid {
+		s.backoffGID = 0 // the goroutine that was backing off has come back with its next attempt
+	}
 	if s.BusyAt[s.commitAttempts] {
+		if s.backoffGID != 0 {
+			// Another goroutine is inside rosmar's back-off sleep (a real time.Sleep on the fake
+			// clock). A second sleeper started at the same simulated instant would wake at the same
+			// instant and the two would race outside the scheduler's control (seen by the self-test:
+			// two buckets, which of the two retries draws its CAS first). The fault is dropped.
+			return nil
+		}
+		s.backoffGID = gid
 		s.CommitBusyFired++
 		return sqlite3.Error{Code: sqlite3.ErrBusy}
 	}
